@@ -29,7 +29,7 @@ type BOp struct {
 //	put del batch get has compact reopen idle
 //	snap snapget snapscan snaprel
 //	iter iterwalk iterrel scan
-//	tropen trget trcommit trdiscard
+//	tropen trget trcommit trdiscard churn
 type Op struct {
 	T       string    `json:"t"`
 	K       int       `json:"k,omitempty"`
@@ -46,15 +46,16 @@ type Op struct {
 
 // Case is a complete, replayable test case.
 type Case struct {
-	Prop   string      `json:"prop"`
-	Opts   gen.OptSpec `json:"opts"`
-	Cmp    string      `json:"cmp"`
-	Keys   []gen.Hex   `json:"keys"`
-	Ops    []Op        `json:"ops"`
-	Det    bool        `json:"det,omitempty"`    // wait for background work after every mutating step
-	Tree   bool        `json:"tree,omitempty"`   // check C06 invariants on every installed version
-	Files  bool        `json:"files,omitempty"`  // check C07 file-set invariants at idle points
-	Poison bool        `json:"poison,omitempty"` // scribble over argument and result buffers (C20)
+	Prop      string      `json:"prop"`
+	Opts      gen.OptSpec `json:"opts"`
+	Cmp       string      `json:"cmp"`
+	Keys      []gen.Hex   `json:"keys"`
+	Ops       []Op        `json:"ops"`
+	Det       bool        `json:"det,omitempty"`       // wait for background work after every mutating step
+	Tree      bool        `json:"tree,omitempty"`      // check C06 invariants on every installed version
+	Files     bool        `json:"files,omitempty"`     // check C07 file-set invariants at idle points
+	Poison    bool        `json:"poison,omitempty"`    // scribble over argument and result buffers (C20)
+	SlowFlush bool        `json:"slowflush,omitempty"` // table creation is delayed a little so that reads meet the frozen buffer
 	// FilterCycle, when set, overrides the filter policy: the i-th Open uses
 	// FilterCycle[i mod len] as Options.Filter, with the bloom and hash-set
 	// policies as AltFilters so that tables written under another policy stay
